@@ -135,7 +135,7 @@ var specs = []*PropSpec{
 	{
 		ID: "C09",
 		Cfg: Config{Property: "C09", Assert: asserts("insert", "delete", "search", "all", "backward", "min", "max", "range", "topk", "bottomk", "size"),
-			AuditOps: []string{"scan", "sweep", "extremes"}, AuditEvery: 6, Census: true},
+			AuditOps: []string{"scan", "sweep", "extremes", "rangeaudit"}, AuditEvery: 6, Census: true},
 		Mix:       withMix(baseMix, func(m *Mix) { m.Range = 6; m.Extremes = 1; m.TopBottom = 1; m.Size = 1 }),
 		Families:  []string{"compound"},
 		Templates: []string{"fanupdown", "emptied", "rangedecoy"},
